@@ -156,7 +156,12 @@ def run_history(sc: dict) -> dict:
                 st['last_activity'] = T()
                 observe('exit')
 
+        def h_after(e: X):
+            # a second, passive handler registered after h: when h's event is interrupted it is still pending
+            return None
+
         bus.on(X, h)
+        bus.on(X, h_after)
 
         def unfinished():
             """accepted events that have not left their handler; an event whose handler was refused by the recursion guard
@@ -166,7 +171,7 @@ def run_history(sc: dict) -> dict:
                 if s_ == 'done':
                     continue
                 e = events[t]
-                if s_ == 'queued' and entered[t] == 0 and e.event_results and all(r.status == 'error' for r in e.event_results.values()):
+                if s_ == 'queued' and entered[t] == 0 and e.event_results and all(r.status in ('completed', 'error') for r in e.event_results.values()) and any(r.status == 'error' and r.handler_name.split('.')[-1] == 'h' for r in e.event_results.values()):
                     state[t] = 'done'
                     continue
                 out_.append(t)
